@@ -529,6 +529,29 @@ func c19Judge(inv *c19Inv, res *TshResult, refs map[string]*c19Ref, st *c19Stats
 		}
 		return k, fmt.Sprintf("target %s: exit=%d, %s is %s: %d bytes (pre-state: exists=%v, library accepts=%v)", t, res.Exit, p, what, len(data), pex, ref != nil && ref.Accepted)
 	}
+	// "… or nothing": after an error exit the output directory holds no new file
+	// besides requested outputs (a temporary file that was never cleaned up).
+	// Not judged when the clean-up itself was made to fail by an injected fault.
+	removeFaulted := false
+	for _, ev := range res.Journal {
+		if ev.Fault != "" && ev.Op == simrt.OpRemove {
+			removeFaulted = true
+		}
+	}
+	if !removeFaulted {
+		requested := map[string]bool{}
+		for _, t := range uniq(inv.Targets) {
+			requested[path.Join(outDir, stem+"."+extOf[t])] = true
+		}
+		for _, p := range sortedKeys(final) {
+			d := final[p]
+			if d.Res != "file" || requested[p] || pre[p] != nil || path.Dir(p) != outDir {
+				continue
+			}
+			clause("3:stray-file-on-error")
+			return "error-exit-leaves-stray-file", fmt.Sprintf("exit=%d and the output directory holds a new file %s (%d bytes) that is not a requested output", res.Exit, p, len(d.Data))
+		}
+	}
 	clause("3:error-exit-clean")
 	return "", ""
 }
